@@ -73,7 +73,22 @@ func (u *Unit) funcEnv(fn *ssa.Function, params []Val, results []Val, st, old *s
 	if top.Pkg != nil {
 		pkg = top.Pkg.Pkg
 	}
-	return &Env{u: u, st: st, old: old, pkg: pkg, bound: map[string]Val{}, look: func(name string) (Val, bool) {
+	var lookSt func(name string, s *state) (Val, bool)
+	if len(fn.FreeVars) > 0 && u.rootFrame != nil && u.rootFrame.fn == fn {
+		// captured variables of a closure verified as a root: cells of the enclosing function
+		free := u.rootFrame.free
+		lookSt = func(name string, s *state) (Val, bool) {
+			for i, fv := range fn.FreeVars {
+				if fv.Name() == name && i < len(free) {
+					elem := fv.Type().(*types.Pointer).Elem()
+					env := &Env{u: u, st: s}
+					return env.loadAt(free[i].S[0], elem, "elem"), true
+				}
+			}
+			return Val{}, false
+		}
+	}
+	return &Env{u: u, st: st, old: old, pkg: pkg, bound: map[string]Val{}, lookSt: lookSt, look: func(name string) (Val, bool) {
 		for i, p := range fn.Params {
 			if p.Name() == name && i < len(params) {
 				return params[i], true
@@ -372,6 +387,15 @@ func encodeUnitMode(p *Program, db *ContractDB, root *ssa.Function, safetyOnly b
 	}
 	for _, fv := range root.FreeVars {
 		v := u.havocVal("free."+fv.Name(), fv.Type(), st.mem, "true")
+		// a captured variable is a cell of the enclosing function: never nil, distinct from the other captured cells
+		if _, isPtr := fv.Type().Underlying().(*types.Pointer); isPtr && len(v.S) == 1 {
+			u.ctx.assert("freevar", not(eq(v.S[0], "0")))
+			for _, w := range f.free {
+				if len(w.S) == 1 {
+					u.ctx.assert("freevar", not(eq(v.S[0], w.S[0])))
+				}
+			}
+		}
 		f.free = append(f.free, v)
 	}
 	ct := u.ctFor(u.rootKey)
